@@ -63,6 +63,8 @@ def main():
                 unlisted.setdefault(v.get("mech", "unspecified"), []).append((case, v))
     coverage = mod.summarize(cases, records, tier)
     inconclusive = coverage.pop("inconclusive_reason", None)
+    if a.replay:
+        inconclusive = None  # coverage floors are about whole workloads, not about one replayed case
     n_inc = sum(1 for r in records if r.get("status") == "inconclusive")
     coverage["cases_inconclusive"] = n_inc
     coverage["infra"] = {k: v for k, v in infra.items() if k != "worker_logs"}
